@@ -41,6 +41,9 @@ var divAllow = map[string]string{
 
 func c04() []*Ob {
 	return []*Ob{
+		{Prop: "C04", ID: "C04.13", Engine: "PAIR(two sites)", Floor: 1,
+			Desc:  "ids that share a millisecond are all found in a sealed fraction: findLIDs re-justifies its search window at every id (a comparison with the predecessor resets the lower end, the upper end never moves), or sortIDs hands it the ids in full (MID, RID) order",
+			Check: func(c *Ctx) { findLIDsWindowJustified(c) }},
 		{Prop: "C04", ID: "C04.12", Engine: "PAIR(two sites)", Floor: 1,
 			Desc:  "an absent id does not take the batch down: sealedIDsIndex.LessOrEqual answers for a position beyond the ID table, or findLIDs never searches beyond Len()-1 (no search takes an earlier result as its upper end). With both relaxed, an absent id below everything stored followed by another id makes the probe index past the table; the recovered panic fails the whole fetch",
 			Check: func(c *Ctx) { lessOrEqualBorder(c) }},
